@@ -13,6 +13,7 @@ import z3
 
 from .symexec import (VInt, VBool, VStruct, VEnum, VRef, VOpaque, VSeq, VList, UNIT, Unsupported, I, simp, merge, list_get)
 from .stdmodels import opt_sym, some, none, call_closure
+from . import stdmodels
 
 
 class _Elems:
@@ -505,8 +506,94 @@ def _fn_call(ex, st, args, dest_ty, func, where):
 ITER_SRC = r"(?:std::slice::Iter<'_, [^>]*>|std::iter::\w+<.*>|\w+<.*>|std::path::Components<'_>|Components<'_>|std::collections::btree_map::\w+<.*>|std::slice::Chunks<'_, \w+>)"
 
 
+def _slice_fold(ex, st, args, dest_ty, func, where):
+    """slice::Iter::fold(init, closure) over a slice of CONCRETE length: the closure runs from its own MIR once per element"""
+    it = args[0]
+    while isinstance(it, VRef):
+        it = ex.deref(st, it)
+    if isinstance(it, VStruct) and it.name == "SliceIter":
+        s, start = it.f[0], simp(it.f[1].t)
+    else:
+        s, start = stdmodels.seq_of(ex, st, it), I(0)
+    n = simp(s.len)
+    if not (isinstance(s, VSeq) and z3.is_int_value(n) and z3.is_int_value(start)):
+        raise Unsupported("fold over a slice of symbolic length")
+    acc = args[1]
+    for i in range(start.as_long(), n.as_long()):
+        acc = call_closure(ex, st, args[2], [acc, VRef("val", val=VInt(s.at(I(i)), s.elem))], where)
+        if acc is None:
+            return None
+    return acc
+
+
+def _str_bytes(ex, st, args, dest_ty, func, where):
+    """str::bytes on a character sequence of ONE-BYTE characters (the obligation assumes ASCII text)"""
+    s_ = stdmodels._str_of(ex, st, args[0])
+    return VStruct("SliceIter", [VSeq(s_.arr, s_.off, s_.len, "u8"), VInt(I(0), "usize")])
+
+
+def _zip(ex, st, args, dest_ty, func, where):
+    return VStruct("Zip", [args[0], args[1]])
+
+
+def _zip_fold(ex, st, args, dest_ty, func, where):
+    """Zip<A, B>::fold over two slice iterators of symbolic length: min(len) steps, the closure (pure) runs from its MIR"""
+    z = args[0]
+    while isinstance(z, VRef):
+        z = ex.deref(st, z)
+    a, b = z.f
+    if not all(isinstance(x, VStruct) and x.name == "SliceIter" and isinstance(x.f[0], VSeq) for x in (a, b)):
+        raise Unsupported("zip-fold over %r, %r" % (a, b))
+    sa, sb = a.f[0], b.f[0]
+    cap = max(getattr(ex, "str_cap", 0), getattr(ex, "byte_cap", 0), 1)
+    ex.oblig("model-bound", where, "zip: sequences longer than the model capacity %d" % cap, z3.And(st.guard, sa.len > cap, sb.len > cap))
+    acc = args[1]
+    for i in range(cap):
+        live = simp(z3.And(a.f[1].t + i < sa.len, b.f[1].t + i < sb.len))
+        if z3.is_false(live):
+            break
+        item = VStruct("(tuple)", [VInt(sa.at(simp(a.f[1].t + i)), sa.elem), VInt(sb.at(simp(b.f[1].t + i)), sb.elem)])
+        nxt = call_closure(ex, st, args[2], [acc, item], where)
+        acc = nxt if z3.is_true(live) else merge(live, nxt, acc)
+    return acc
+
+
+def _array_into_iter(ex, st, args, dest_ty, func, where):
+    a = args[0]
+    while isinstance(a, VRef):
+        a = ex.deref(st, a)
+    if not (isinstance(a, VStruct) and a.name == "[array]"):
+        raise Unsupported("array into_iter on %r" % (a,))
+    return VStruct("ArrayIter", [a, VInt(I(0), "usize")])
+
+
+def _array_iter_next(ex, st, args, dest_ty, func, where):
+    """array::IntoIter::next over a concrete-length array of values: the index may be symbolic after a loop merge"""
+    from .symexec import merge
+    ref = args[0]
+    it = ex.deref(st, ref)
+    if isinstance(it, VStruct) and it.name == "[array]":
+        it = VStruct("ArrayIter", [it, VInt(I(0), "usize")])      # into_iter was the identity model: the iterator is still the array
+    arr, idx = it.f[0], it.f[1].t
+    n = len(arr.f)
+    has = simp(idx < n)
+    item = None
+    for j in range(n - 1, -1, -1):
+        item = arr.f[j] if item is None else merge(simp(idx == j), arr.f[j], item)
+    ex.store_ref(st, ref, VStruct("ArrayIter", [arr, VInt(simp(z3.If(has, idx + 1, idx)), "usize")]))
+    if item is None:
+        return VEnum("Option", I(0), {0: []})
+    return opt_sym(has, item)
+
+
 def install(ex):
     M = []
+    M.append((re.compile(r"^<\[.*; \d+\] as IntoIterator>::into_iter$"), _array_into_iter, "<[T; N] as IntoIterator>::into_iter"))
+    M.append((re.compile(r"^<std::slice::Iter<'_, \w+> as Iterator>::fold::<"), _slice_fold, "slice::Iter::fold (closure from MIR, concrete length)"))
+    M.append((re.compile(r"^core::str::<impl str>::bytes$"), _str_bytes, "str::bytes (one-byte characters)"))
+    M.append((re.compile(r"^<(std::str::)?Bytes<'_> as Iterator>::zip::<"), _zip, "Iterator::zip"))
+    M.append((re.compile(r"^<(std::iter::)?Zip<(std::str::)?Bytes<'_>, (std::str::)?Bytes<'_>> as Iterator>::fold::<"), _zip_fold, "Zip::fold (min(len) steps, closure from MIR)"))
+    M.append((re.compile(r"^<(std|core)::array::IntoIter<.*, \d+> as Iterator>::next$"), _array_iter_next, "array::IntoIter::next"))
 
     def A(pat, h, label):
         M.append((re.compile(pat), h, label))
